@@ -449,6 +449,32 @@ pub fn run(run: &mut Run) -> Finish {
             }
         });
     }
+    // non-initial builder states: every history of <= 3/4 calls appended to each of a few prefixes
+    let s = |x: &str| Some(x.to_string());
+    let prefixes: Vec<Vec<BOp>> = vec![
+        vec![BOp::AddSource("a".into()), BOp::AddSource("b".into()), BOp::SetContents(true, s("text"))],
+        vec![BOp::Add(0, 0, s("a"), s("n")), BOp::Add(1, 3, s("c"), None), BOp::SetRoot(s("r"))],
+        vec![BOp::AddSource("a".into()), BOp::AddSource("b".into()), BOp::AddSource("/abs/x.js".into()), BOp::SetContents(true, s("text")), BOp::Ignore(false)],
+        vec![BOp::AddName("n".into()), BOp::AddName("m".into()), BOp::AddSource("".into()), BOp::AddRaw(2, 0, true, true), BOp::SetContents(false, s("text"))],
+    ];
+    let pdepth = tier.pick(3usize, 4);
+    for (pi, prefix) in prefixes.iter().enumerate() {
+        for len in 1..=pdepth {
+            run.par_slice(&format!("builder from a non-initial state (prefix #{pi} of {} calls): every continuation of exactly {len} calls", prefix.len()), 20 + (pi * 8 + len) as u64, nb.pow(len as u32), |idx, l| {
+                let k = idx & ((1 << 40) - 1);
+                let mut ops = prefix.clone();
+                ops.extend(seq_of(k, nb, len).iter().map(|&i| balpha[i].clone()));
+                if let Some((sig, what)) = run_builder_history(&ops) {
+                    l.violation(idx, Viol::new(format!("C13/{sig}"), what, json!({"kind": "builder", "ops": serde_json::to_value(&ops).unwrap()})));
+                }
+                l.traces += 1;
+                l.transitions += ops.len() as u64 + 1;
+                let sh = model_state_hash_b(&ops);
+                l.states.insert(sh);
+                l.case(true, sh % 4096);
+            });
+        }
+    }
     let malpha = map_alphabet();
     let nm = malpha.len() as u64;
     let mdepth = tier.pick(4usize, 5);
@@ -474,7 +500,7 @@ pub fn run(run: &mut Run) -> Finish {
     }
     Finish {
         level: "model_checking",
-        rule: "E2: every history of builder calls up to the stated length (alphabet: add_source x4, add_name x3, add x8, add_raw x2, set_source_contents x4, add_to_ignore_list x2, set_source_root x4, set_file x2, set_debug_id x2) is replayed on a fresh SourceMapBuilder in lock-step with a Vec+linear-search interning model: returned ids / raw tokens and all getters after every step, the finished map's sources (joined with the root), names, contents, ignore list, file, debug id, root and every token's resolved strings at the end. Every history of map operations (set_source_root x5, set_source x6, set_source_contents x4, to_writer+from_slice) from 12 seed maps: after every step get_source(i) = join(root, raw_i), contents, and the serialised sources/sourceRoot are the raw names and root. No state merging: states = distinct reference-model states (builder) / histories (map); transitions = operations executed on real objects; traces = complete histories.".into(),
+        rule: "E2: every history of builder calls up to the stated length (alphabet: add_source x4, add_name x3, add x8, add_raw x2, set_source_contents x4, add_to_ignore_list x2, set_source_root x4, set_file x2, set_debug_id x2) is replayed on a fresh SourceMapBuilder in lock-step with a Vec+linear-search interning model: returned ids / raw tokens and all getters after every step, the finished map's sources (joined with the root), names, contents, ignore list, file, debug id, root and every token's resolved strings at the end. Every history of map operations (set_source_root x5, set_source x6, set_source_contents x4, to_writer+from_slice) from 12 seed maps: after every step get_source(i) = join(root, raw_i), contents, and the serialised sources/sourceRoot are the raw names and root. Builder histories also start from four non-initial states (prefixes with several sources, contents, roots, raw tokens). No state merging: states = distinct reference-model states (builder) / histories (map); transitions = operations executed on real objects; traces = complete histories.".into(),
         assumptions: vec!["operations with out-of-range ids (documented to panic) are not part of the alphabet".into(), "tokens sharing a position are compared as a multiset".into()],
         coverage_extra: json!({"builder_depth": bdepth, "builder_alphabet": nb, "map_depth": mdepth, "map_alphabet": nm, "map_seeds": ns}),
     }
